@@ -114,6 +114,7 @@ template <class Archive>
 inline void CEREAL_LOAD_FUNCTION_NAME(Archive &archive, bj::object &object) {
   std::size_t num_objects;
   archive(make_size_tag(num_objects));
+  object.clear();  // replace whatever the target held, like every other loader
 
   std::string key;  // reuse buffer to speed up
   for (std::size_t i = 0; i < num_objects; ++i) {
@@ -146,6 +147,7 @@ template <class Archive>
 inline void CEREAL_LOAD_FUNCTION_NAME(Archive &archive, bj::array &array) {
   std::size_t size;
   archive(make_size_tag(size));
+  array.clear();  // replace whatever the target held, like every other loader
   array.reserve(size);
 
   for (std::size_t i = 0; i < size; ++i) {
